@@ -274,6 +274,11 @@ func init() {
 		// unknown hash identifiers: a positive size, or a panic inside the library (not modelled)
 		return sym.App(sym.Int, "hashsize", h), true
 	})
+	// whether the implementation is linked into the binary: a property of the program being built, not of the call -
+	// an opaque boolean (a result that depends on it is visible in every accept set)
+	reg("(crypto.Hash).Available", func(ex *Exec, c *CallCtx) (Val, bool) {
+		return sym.App(sym.Bool, "hash_available", tm(ex, c, 0)), true
+	})
 	reg("(crypto.Hash).HashFunc", func(ex *Exec, c *CallCtx) (Val, bool) { return c.Args[0], true })
 	reg("gitlab.com/yawning/tuplehash.NewTupleHashXOF128", func(ex *Exec, c *CallCtx) (Val, bool) {
 		return ex.NewHashObj(&HashState{Alg: "tuplehashxof128", Key: ex.SliceBytes(c.St, c.Args[0]), Items: []*sym.Term{}}), true
